@@ -1,4 +1,5 @@
-(* Sessions during which resources change from outside (Build.run_msession): the model of what the correspondence runs explore
+(* Sessions during which resources change from outside (Build.run_msession), and sessions that are used on after a caught abort
+   (Build.run_zsession): the model of what the correspondence runs explore
    when the session contract "no external change while a Session is alive" is broken.
    - conservative: without edits it is run_session (so every theorem about sessions applies to the edit-free case);
    - the store invariants and the event-stream theorems that do not depend on resource contents survive such edits: no "node
@@ -73,6 +74,68 @@ Theorem msession_errors_reported fuel w ops :
   forall ev x, In ev (trace w') -> ErrRep.errev ev = Some x -> In x (errs w').
 Proof.
   apply (run_msession_inv ErrRep.R fuel); [intros; apply ErrRep.run_sop_R; assumption| |intros ev x []].
+  intros w0 r v H ev x. rewrite set_content_trace, set_content_errs. apply H.
+Qed.
+
+(* ---- the same Session used again after a caught abort (Build.run_zsession) ---- *)
+Lemma run_zsession_inv (I : world -> Prop) fuel :
+  (forall w o, I w -> I (snd (run_sop RC OC P always fuel w o))) -> (forall w r v, I w -> I (set_content w r v)) ->
+  forall ops w, I w -> I (snd (run_zsession RC OC P always fuel w ops)).
+Proof.
+  intros Hs He. induction ops as [|o tl IH]; intros w Hw; cbn [run_zsession]; [exact Hw|].
+  destruct o as [o|r v]; [|apply IH, He; exact Hw].
+  pose proof (Hs w o Hw) as X. destruct (run_sop RC OC P always fuel w o) as [[x|k|] w']; cbn [snd] in *; [| |exact X];
+    (specialize (IH w' X); destruct (run_zsession RC OC P always fuel w' tl) as [rs w'']; exact IH).
+Qed.
+
+(* as long as no build aborts, using the session on is the ordinary session *)
+Theorem run_zsession_plain fuel ops : forall w, Forall (fun r => exists x, r = RDone x) (fst (run_session RC OC P always fuel w ops)) ->
+  run_zsession RC OC P always fuel w (map MSop ops) = run_session RC OC P always fuel w ops.
+Proof.
+  induction ops as [|o tl IH]; intros w H; cbn [map run_zsession run_session] in *; [reflexivity|].
+  destruct (run_sop RC OC P always fuel w o) as [[x|k|] w'].
+  - destruct (run_session RC OC P always fuel w' tl) as [rs w''] eqn:E. cbn [fst] in H. inversion H; subst.
+    rewrite IH; [rewrite E; reflexivity|rewrite E; assumption].
+  - cbn [fst] in H. inversion H as [|r0 l0 [y Y] _]; discriminate.
+  - reflexivity.
+Qed.
+
+Theorem zsession_store_invariants fuel ops w : L w -> L (snd (run_zsession RC OC P always fuel (new_session w) ops)).
+Proof.
+  intros HL. apply (run_zsession_inv L fuel); [intros w0 o H; apply (run_sop_R RC OC P always fuel w0 o H)|intros; apply L_set_content; assumption|apply L_new_session; exact HL].
+Qed.
+
+Theorem zsession_failed_check_then_execution fuel w ops :
+  let w' := snd (run_zsession RC OC P always fuel (new_session w) ops) in
+  forall post e pre, trace w' = post ++ e :: pre -> TdForward.failing e = true ->
+    exists post' t, post = post' ++ [EExecStart t].
+Proof.
+  intros w' post e pre T He.
+  assert (X : TdForward.R w').
+  { apply (run_zsession_inv TdForward.R fuel); [intros; apply TdForward.run_sop_R; assumption| |split; exact Logic.I].
+    intros w0 r v H. unfold TdForward.R. rewrite set_content_trace. exact H. }
+  destruct X as [X1 X2]. rewrite T in X1, X2.
+  destruct (TdForward.FJ_split post e pre X1 He) as [E|E]; [|exact E]. subst post. cbn in X2. congruence.
+Qed.
+
+Theorem zsession_executions_justified fuel w ops :
+  let tr := trace (snd (run_zsession RC OC P always fuel (new_session w) ops)) in
+  (forall post t pre, tr = post ++ EExecStart t :: pre ->
+     ExecJust.head_failing pre \/ In (ESchedTask t) pre \/ get_task_output w t = None \/ In (EExecStart t) pre) /\
+  (forall post t pre, tr = post ++ ESchedTask t :: pre -> exists e pre', pre = e :: pre' /\ incons_end t e).
+Proof.
+  intros tr.
+  assert (X : ExecJust.E (outs w) (snd (run_zsession RC OC P always fuel (new_session w) ops))).
+  { apply (run_zsession_inv (ExecJust.E (outs w)) fuel); [intros; apply ExecJust.run_sop_E; assumption| |apply ExecJust.E_new_session].
+    intros w0 r v H. eapply ExecJust.quiet_E; [apply quiet_set_content|exact H]. }
+  destruct X as [_ _ X S]. split; [apply (ExecJust.XJ_spec _ _ X)|apply (ExecJust.SJ_spec _ S)].
+Qed.
+
+Theorem zsession_errors_reported fuel w ops :
+  let w' := snd (run_zsession RC OC P always fuel (new_session w) ops) in
+  forall ev x, In ev (trace w') -> ErrRep.errev ev = Some x -> In x (errs w').
+Proof.
+  apply (run_zsession_inv ErrRep.R fuel); [intros; apply ErrRep.run_sop_R; assumption| |intros ev x []].
   intros w0 r v H ev x. rewrite set_content_trace, set_content_errs. apply H.
 Qed.
 
